@@ -448,6 +448,23 @@ type Layout struct {
 	Units []string `json:"units"`
 	SepA  []string `json:"sep_a"`
 	SepB  []string `json:"sep_b"`
+	// HashBang: the text opens with an interpreter line "#!<HashBang>\n";
+	// LeadA / LeadB: white space in front of the whole text (in front of the
+	// interpreter line when there is one) in the two layouts
+	HashBang string `json:"hash_bang,omitempty"`
+	LeadA    string `json:"lead_a,omitempty"`
+	LeadB    string `json:"lead_b,omitempty"`
+}
+
+var leads = []string{"", "", " ", "\n", "\t", "\r\n", "\f", "  \n", "\n\n"}
+var hashBangs = []string{"/usr/bin/env elps", "/bin/elps run -", " elps", "x"}
+
+func (l Layout) texts() (string, string) {
+	hb := ""
+	if l.HashBang != "" {
+		hb = "#!" + l.HashBang + "\n"
+	}
+	return l.LeadA + hb + render(l.Units, l.SepA), l.LeadB + hb + render(l.Units, l.SepB)
 }
 
 var seps = []string{" ", "  ", "\n", "\t", " \n ", "\n\n", " ;c\n", ";; x y (\n", "\r\n", " ; \"\n", "\n\n\n",
@@ -547,6 +564,14 @@ func genLayout() *rapid.Generator[Layout] {
 			l.SepA = append(l.SepA, rapid.SampledFrom(append([]string{""}, seps...)).Draw(t, "sa"))
 			l.SepB = append(l.SepB, rapid.SampledFrom(append([]string{""}, seps...)).Draw(t, "sb"))
 		}
+		if rapid.IntRange(0, 3).Draw(t, "leadq") == 0 {
+			// white space in front of the text, with or without an interpreter line
+			if rapid.IntRange(0, 2).Draw(t, "hbq") > 0 {
+				l.HashBang = rapid.SampledFrom(hashBangs).Draw(t, "hb")
+			}
+			l.LeadA = rapid.SampledFrom(leads).Draw(t, "la")
+			l.LeadB = rapid.SampledFrom(leads).Draw(t, "lb")
+		}
 		return l
 	})
 }
@@ -555,8 +580,13 @@ func checkLayout(l Layout, c *vcommon.Ctx) *vcommon.Failure {
 	if len(l.SepA) < len(l.Units)-1 || len(l.SepB) < len(l.Units)-1 {
 		return nil
 	}
-	a := render(l.Units, l.SepA)
-	b := render(l.Units, l.SepB)
+	a, b := l.texts()
+	if l.HashBang != "" {
+		c.Class("interpreter-line")
+		if l.LeadA != l.LeadB {
+			c.Class("interpreter-line-behind-different-leads")
+		}
+	}
 	// a trailing comment needs a final newline only if something follows; the
 	// last unit is never a comment, so nothing to do.
 	ea, erra := strictRead(a)
